@@ -4,6 +4,7 @@
 import Pdt.Props.Lemmas.Sort
 import Pdt.Props.Lemmas.Rows
 import Pdt.Model.Verbs
+import Pdt.Props.Lemmas.Partition
 
 namespace Pdt.C05
 open Pdt Pdt.Spec
@@ -183,6 +184,18 @@ theorem windowOp_rows (op : String) (argCols : List (List Val)) (ordered : List 
   simp only [List.mem_cons, List.mem_nil_iff, or_false] at h
   rcases h with h | h | h | h | h | h | h | h | h | h | h | h <;> subst h <;>
     simp [windowOp, List.map_map, Function.comp_def, List.zipIdx_map_fst]
+
+/-- window functions are evaluated per partition: every row is in exactly one partition (the partitions,
+    concatenated, are a permutation of the row positions), no partition is empty … -/
+theorem partitions_cover_rows (partKeys : List (List Val)) :
+    (partitionIdx partKeys).flatten.Perm (List.range partKeys.length) ∧ ∀ g ∈ partitionIdx partKeys, g ≠ [] :=
+  ⟨partitionIdx_perm partKeys, partitionIdx_nonempty partKeys⟩
+
+/-- … and a partition holds exactly the rows that carry its `partition_by` values (null is a value of
+    its own); different partitions have different values -/
+theorem partition_is_key_class (partKeys : List (List Val)) (g : Grp) (hg : g ∈ partitionGroups partKeys) (i : Nat) :
+    (i ∈ g.2 ↔ partKeys[i]? = some g.1) ∧ ((partitionGroups partKeys).map (·.1)).Nodup :=
+  ⟨partition_members partKeys g hg i, partition_keys_nodup partKeys⟩
 
 /-! ### grouping state = `partition_by` -/
 
